@@ -38,6 +38,9 @@ C17_OK(ev, i) == LET a == Base(ev, i) IN EolVariant(a.rows, ev.rows) /\ SameDoc(
 Holds(ev, i, p) ==
   CASE p = "C03" -> C03_OK(ev)
     [] p = "C01" -> ev.out = "return" /\ ev.doc.wf = 1 /\ ev.work[5] = 0     \* only Return; no pass ever grew a list
+    [] p = "C19" -> CliOK([opts |-> RangeOf(ev.sc.opts), inmode |-> ev.sc.inmode, fault |-> RangeOf(ev.sc.fault)], ev.ob)
+    [] p = "C19build" -> BuildOK(ev.build, ev.ob)
+    [] p = "C20" -> ExchangeOK(ev.ob)
     [] p = "C12" -> C12_OK(ev)
     [] p = "C12x" -> C12_ExQuoted(ev)
     [] p = "C09" -> C09_OK(ev)
@@ -64,6 +67,7 @@ Holds(ev, i, p) ==
 NonTrivial(ev, i, p) ==
   CASE p = "C03" -> C03_NT(ev)
     [] p = "C01" -> ev.nchars > 0
+    [] p \in {"C19", "C19build", "C20"} -> TRUE
     [] p = "C12" -> C12_NT(ev)
     [] p = "C09" -> C09_NT(ev)
     [] p = "C09run" -> TRUE
